@@ -595,4 +595,380 @@ theorem mergeTarget_eq_c05 (cfg : Config) (isRoot : Bool) (l r : Node)
         simp only [Bool.false_eq_true, if_false, this]
         cases v <;> first | exact absurd rfl hv | (cases lv <;> first | rfl | exact absurd rfl hlv)
 
+/-! ## The spine above a target keeps its shape -/
+
+theorem setKey_keys (k : Key) (v : Node) :
+    ∀ (es : List (Key × Node)), (setKey k v es).map Prod.fst = es.map Prod.fst
+  | [] => rfl
+  | (k', v') :: rest => by
+    by_cases hk : k' = k
+    · simp [setKey, hk]
+    · simp [setKey, hk, setKey_keys k v rest]
+
+theorem shape_setChild (n : Node) (r : Ref) (c' : Node) : shape (setChild n r c') = shape n := by
+  cases n with
+  | scalar a v => cases r <;> rfl
+  | set a ms => cases r <;> rfl
+  | seq a items => cases r <;> simp [setChild, shape]
+  | map a es => cases r <;> simp [setChild, shape, setKey_keys]
+
+/-- Writing at `a` keeps the shape of every position that does not lie under `a` (the positions
+above `a` included). -/
+theorem shape_get?_setAt (new : Node) :
+    ∀ (a : Addr) (d : Node) (p : Addr), ¬ a <+: p →
+      ((setAt new d a).get? p).map shape = (d.get? p).map shape
+  | [], _, p, h => absurd (List.nil_prefix (l := p)) h
+  | r :: rest, d, [], _ => by
+    simp only [setAt]
+    cases hc : d.child? r with
+    | none => rfl
+    | some c => simp [Node.get?, shape_setChild]
+  | r :: rest, d, r' :: rest', h => by
+    simp only [setAt]
+    cases hc : d.child? r with
+    | none => rfl
+    | some c =>
+      simp only
+      by_cases hr : r' = r
+      · subst hr
+        have hrest : ¬ rest <+: rest' := fun hp => h (by simpa using hp)
+        cases hm : isMemberRef r' with
+        | false =>
+          simp only [Node.get?, child?_setChild_same hc hm, hc]
+          exact shape_get?_setAt new rest c rest' hrest
+        | true =>
+          cases r' with
+          | member k => rw [setChild_member]
+          | idx i => simp [isMemberRef] at hm
+          | key k => simp [isMemberRef] at hm
+      · simp only [Node.get?, child?_setChild_other hr]
+
+/-- SPINE of the loop: a position that lies under no target keeps its shape — in particular every
+container above a target keeps its kind, anchor, key list (in order) / length. -/
+theorem mergeTargets_shape (env : Env) (r : Node) :
+    ∀ (ts : List Addr) (d d' : Node), mergeTargets env r d ts = .ok d' →
+      ∀ p, (∀ t ∈ ts, ¬ t <+: p) → (d'.get? p).map shape = (d.get? p).map shape
+  | [], d, d', h, _, _ => by simp [mergeTargets] at h; cases h; rfl
+  | a :: rest, d, d', h, p, hp => by
+    simp only [mergeTargets] at h
+    cases h1 : mergeOne env r d a with
+    | error e => simp [h1] at h
+    | ok d1 =>
+      simp only [h1] at h
+      obtain ⟨_, old, m, _, _, hd1⟩ := mergeOne_ok h1
+      rw [mergeTargets_shape env r rest d1 d' h p (fun t ht => hp t (List.mem_cons_of_mem _ ht)), hd1]
+      exact shape_get?_setAt m a d p (hp a List.mem_cons_self)
+
+/-! ## On a Scalar leaf the creation model is the C09 model (`Model/Edit.lean`) -/
+
+def CreatedN.toCreated (c : CreatedN) : Created := ⟨c.doc, c.addr⟩
+
+theorem buildNextN_scalar (rest : List PSeg) (s : Scalar) :
+    buildNextN rest (.scalar none s) = buildNext rest s := by
+  cases rest with
+  | nil => rfl
+  | cons seg t => cases seg <;> rfl
+
+theorem fillN_scalar (s : Scalar) : ∀ (rest : List PSeg), fillN rest (.scalar none s) = fill rest s
+  | [] => rfl
+  | .key k :: rest => by simp [fillN, fill, fillN_scalar s rest]
+  | .index i :: rest => by simp [fillN, fill, fillN_scalar s rest, buildNextN_scalar]
+
+theorem createHereN_scalar (n : Node) (seg : PSeg) (rest : List PSeg) (s : Scalar) :
+    createHereN n seg rest (.scalar none s) = createHere n seg rest s := by
+  cases n with
+  | scalar a v => rfl
+  | set a m => rfl
+  | seq a items =>
+    simp only [createHereN, createHere, fillN_scalar, buildNextN_scalar]
+    cases intOfSeg seg with
+    | none => rfl
+    | some i =>
+      simp only
+      split
+      · rfl
+      · cases fill rest s <;> rfl
+  | map a es =>
+    simp only [createHereN, createHere, fillN_scalar]
+    cases seg with
+    | index i => rfl
+    | key k => simp only; cases fill rest s <;> rfl
+
+theorem isPlainNull_iff (c : Node) : isPlainNull c = true ↔ c = .scalar none .null := by
+  cases c with
+  | scalar a v => cases a <;> cases v <;> simp [isPlainNull]
+  | seq a i => simp [isPlainNull]
+  | map a e => simp [isPlainNull]
+  | set a m => simp [isPlainNull]
+
+theorem createList_eq (s : Scalar) : ∀ (items : List Node) (i : Nat) (rest : List PSeg),
+    createList s items i rest =
+      match items[i]? with
+      | none => .error .outOfModel
+      | some c =>
+        if isPlainNull c then .ok (items, [])
+        else (c.createPath s rest).map (fun r => (items.set i r.doc, r.addr))
+  | [], i, rest => by simp [createList]
+  | c :: cs, 0, rest => by
+    by_cases hn : isPlainNull c = true
+    · have := (isPlainNull_iff c).mp hn
+      subst this
+      simp [createList, isPlainNull]
+    · simp only [List.getElem?_cons_zero, hn, Bool.false_eq_true, if_false, List.set_cons_zero]
+      cases c with
+      | scalar a v =>
+        cases a with
+        | some x => simp [createList]
+        | none => cases v <;> first | (exfalso; exact hn rfl) | simp [createList]
+      | seq a i => simp [createList]
+      | map a e => simp [createList]
+      | set a m => simp [createList]
+  | c :: cs, i + 1, rest => by
+    simp only [createList, createList_eq s cs i rest, List.getElem?_cons_succ, List.set_cons_succ]
+    cases cs[i]? with
+    | none => rfl
+    | some c0 =>
+      simp only
+      split
+      · rfl
+      · cases c0.createPath s rest <;> rfl
+
+theorem createEntries_eq (s : Scalar) : ∀ (es : List (Key × Node)) (k : Key) (rest : List PSeg),
+    createEntries s es k rest =
+      match es.lookup k with
+      | none => .error .outOfModel
+      | some c =>
+        if isPlainNull c then .ok (es, [])
+        else (c.createPath s rest).map (fun r => (setKey k r.doc es, r.addr))
+  | [], k, rest => by simp [createEntries]
+  | (k', c) :: es, k, rest => by
+    by_cases hk : k' = k
+    · subst hk
+      simp only [createEntries, if_true, List.lookup, beq_self_eq_true, setKey]
+      by_cases hn : isPlainNull c = true
+      · have := (isPlainNull_iff c).mp hn
+        subst this
+        simp [isPlainNull]
+      · simp only [hn, Bool.false_eq_true, if_false]
+        cases c with
+        | scalar a v =>
+          cases a with
+          | some x => rfl
+          | none => cases v <;> first | (exfalso; exact hn rfl) | rfl
+        | seq a i => rfl
+        | map a e => rfl
+        | set a m => rfl
+    · have hk' : (k == k') = false := by
+        simp only [beq_eq_false_iff_ne, ne_eq]; exact fun e => hk e.symm
+      simp only [createEntries, hk, if_false, List.lookup, hk', createEntries_eq s es k rest, setKey]
+      cases es.lookup k with
+      | none => rfl
+      | some c0 =>
+        simp only
+        split
+        · rfl
+        · cases c0.createPath s rest <;> rfl
+
+/-- On a Scalar leaf, `createPathN` (recursion over the segments) is the C09 creation model
+`Node.createPath` (mutual recursion over the document): same document, same relayed address. -/
+theorem createPathN_scalar (s : Scalar) : ∀ (segs : List PSeg) (n : Node),
+    (createPathN (.scalar none s) n segs).map CreatedN.toCreated = n.createPath s segs
+  | [], n => by cases n <;> simp [createPathN, Node.createPath, Except.map, CreatedN.toCreated]
+  | seg :: rest, n => by
+    cases n with
+    | scalar a v =>
+      simp [createPathN, Node.createPath, lookSeg, createHereN, Except.map]
+    | set a ms =>
+      simp [createPathN, Node.createPath, lookSeg, Except.map]
+    | seq a items =>
+      simp only [createPathN, Node.createPath, createHereN_scalar]
+      cases hl : lookSeg (.seq a items) seg with
+      | crash e => rfl
+      | missing =>
+        simp only
+        cases createHere (.seq a items) seg rest s <;> simp [Except.map, CreatedN.toCreated, newRef]
+        cases intOfSeg seg <;> rfl
+      | found r =>
+        cases r with
+        | idx i =>
+          simp only [Node.child?, createList_eq s items i rest]
+          cases hi : items[i]? with
+          | none => rfl
+          | some c =>
+            simp only
+            by_cases hn : isPlainNull c = true
+            · simp [hn, Except.map, CreatedN.toCreated]
+            · simp only [hn, Bool.false_eq_true, if_false]
+              rw [← createPathN_scalar s rest c]
+              cases createPathN (.scalar none s) c rest <;> simp [Except.map, CreatedN.toCreated, setChild]
+        | key k => simp [Node.child?, Except.map]
+        | member k => simp [Node.child?, Except.map]
+    | map a es =>
+      simp only [createPathN, Node.createPath, createHereN_scalar]
+      cases hl : lookSeg (.map a es) seg with
+      | crash e => rfl
+      | missing =>
+        simp only
+        cases createHere (.map a es) seg rest s <;> simp [Except.map, CreatedN.toCreated, newRef]
+        cases seg <;> rfl
+      | found r =>
+        cases r with
+        | key k =>
+          simp only [Node.child?, createEntries_eq s es k rest]
+          cases hi : es.lookup k with
+          | none => rfl
+          | some c =>
+            simp only
+            by_cases hn : isPlainNull c = true
+            · simp [hn, Except.map, CreatedN.toCreated]
+            · simp only [hn, Bool.false_eq_true, if_false]
+              rw [← createPathN_scalar s rest c]
+              cases createPathN (.scalar none s) c rest <;> simp [Except.map, CreatedN.toCreated, setChild]
+        | idx i => simp [Node.child?, Except.map]
+        | member k => simp [Node.child?, Except.map]
+
+/-! ## Re-basing rule paths on the merge path -/
+
+/-- `/k1/k2/…` (nothing for the empty list). -/
+def renderRaw (ks : List Str) : Str := ks.foldr (fun k acc => '/' :: k ++ acc) []
+
+theorem renderKeys_cons (k : Str) (ks : List Str) : renderKeys (k :: ks) = renderRaw (k :: ks) := rfl
+
+theorem renderRaw_append (a b : List Str) : renderRaw (a ++ b) = renderRaw a ++ renderRaw b := by
+  induction a with
+  | nil => rfl
+  | cons k ks ih => simp [renderRaw] at ih ⊢; exact ih
+
+theorem go_key (k : Str) (hk : '/' ∉ k) : ∀ (rest cur : Str) (acc : List Str),
+    splitKeys.go (k ++ rest) cur acc = splitKeys.go rest (cur ++ k) acc := by
+  induction k with
+  | nil => intro rest cur acc; simp
+  | cons c cs ih =>
+    intro rest cur acc
+    have hc : c ≠ '/' := fun e => hk (by simp [e])
+    have hcs : '/' ∉ cs := fun h => hk (by simp [h])
+    simp only [List.cons_append, splitKeys.go, hc, if_false]
+    rw [ih hcs]
+    simp
+
+theorem go_render : ∀ (p : List Str), (∀ k ∈ p, '/' ∉ k) → ∀ (cur : Str) (acc : List Str),
+    splitKeys.go (renderRaw p) cur acc = acc ++ [cur] ++ p
+  | [], _, cur, acc => by simp [renderRaw, splitKeys.go]
+  | k :: ps, h, cur, acc => by
+    have hk : '/' ∉ k := h k (by simp)
+    have hps : ∀ k' ∈ ps, '/' ∉ k' := fun k' hk' => h k' (by simp [hk'])
+    have : renderRaw (k :: ps) = '/' :: (k ++ renderRaw ps) := rfl
+    rw [this]
+    simp only [splitKeys.go, if_true]
+    rw [go_key k hk, go_render ps hps]
+    simp
+
+/-- RE-BASING.  A rule written against the left document below the merge path — `mergePath ++ p`,
+plain key names (non-empty, without the separator) — is the rule `p` of the right-hand document. -/
+theorem stripPrefix_append (m p : List Str) (hm : m ≠ [])
+    (hp : ∀ k ∈ p, k ≠ [] ∧ '/' ∉ k) : stripPrefix (m ++ p) m = p := by
+  cases m with
+  | nil => exact absurd rfl hm
+  | cons k ks =>
+    have hr : renderKeys ((k :: ks) ++ p) = renderKeys (k :: ks) ++ renderRaw p := by
+      rw [List.cons_append, renderKeys_cons, renderKeys_cons, ← List.cons_append, renderRaw_append]
+    unfold stripPrefix
+    simp only [List.isEmpty_cons, Bool.false_eq_true, if_false, hr]
+    have hpre : (renderKeys (k :: ks)).isPrefixOf (renderKeys (k :: ks) ++ renderRaw p) = true := by
+      simp
+    simp only [hpre, if_true, List.drop_left']
+    unfold splitKeys
+    rw [go_render p (fun k hk => (hp k hk).2)]
+    simp only [List.nil_append, List.singleton_append, List.filter_cons, List.isEmpty_nil,
+      Bool.not_true, Bool.false_eq_true, if_false]
+    apply List.filter_eq_self.mpr
+    intro k hk
+    have := (hp k hk).1
+    cases k with
+    | nil => exact absurd rfl this
+    | cons c cs => rfl
+
+/-! ## The relayed address never passes through a set member -/
+
+theorem hasMember_fillAddr : ∀ (rest : List PSeg), hasMember (fillAddr rest) = false
+  | [] => rfl
+  | .key s :: rest => by
+    have := hasMember_fillAddr rest
+    simp only [hasMember] at this
+    simp [fillAddr, hasMember, isMemberRef, this]
+  | .index i :: rest => by
+    have := hasMember_fillAddr rest
+    simp only [hasMember] at this
+    simp [fillAddr, hasMember, isMemberRef, this]
+
+theorem isMemberRef_newRef (n : Node) (seg : PSeg) : isMemberRef (newRef n seg) = false := by
+  cases n <;> rfl
+
+theorem hasMember_cons_iff (r : Ref) (a : Addr) :
+    hasMember (r :: a) = (isMemberRef r || hasMember a) := by
+  simp [hasMember]
+
+theorem createPathN_addr_noMember (leaf : Node) :
+    ∀ (segs : List PSeg) (n : Node) (c : CreatedN), createPathN leaf n segs = .ok c →
+      hasMember c.addr = false
+  | [], n, c, h => by simp only [createPathN] at h; cases h; rfl
+  | seg :: rest, n, c, h => by
+    simp only [createPathN] at h
+    cases hl : lookSeg n seg with
+    | crash e => simp [hl] at h
+    | missing =>
+      simp only [hl] at h
+      cases hh : createHereN n seg rest leaf with
+      | error e => simp [hh] at h
+      | ok n' =>
+        simp only [hh] at h
+        cases h
+        simp [hasMember_cons_iff, isMemberRef_newRef, hasMember_fillAddr]
+    | found r =>
+      simp only [hl] at h
+      have hr := lookSeg_found_not_member hl
+      cases hc : n.child? r with
+      | none => simp [hc] at h
+      | some c0 =>
+        simp only [hc] at h
+        cases hn : isPlainNull c0 with
+        | true =>
+          simp only [hn, if_true] at h; cases h
+          simp [hr, hasMember]
+        | false =>
+          simp only [hn, Bool.false_eq_true, if_false] at h
+          cases hcr : createPathN leaf c0 rest with
+          | error e => simp [hcr] at h
+          | ok cr =>
+            simp only [hcr] at h
+            cases h
+            simp [hasMember_cons_iff, hr, createPathN_addr_noMember leaf rest c0 cr hcr]
+
+theorem createPathN_fresh_addr_ne_nil (leaf : Node) (segs : List PSeg) (n : Node) (c : CreatedN)
+    (h : createPathN leaf n segs = .ok c) (hf : c.fresh = true) : c.addr ≠ [] := by
+  cases segs with
+  | nil => simp only [createPathN] at h; cases h; simp at hf
+  | cons seg rest =>
+    simp only [createPathN] at h
+    cases hl : lookSeg n seg with
+    | crash e => simp [hl] at h
+    | missing =>
+      simp only [hl] at h
+      cases hh : createHereN n seg rest leaf with
+      | error e => simp [hh] at h
+      | ok n' => simp only [hh] at h; cases h; simp
+    | found r =>
+      simp only [hl] at h
+      cases hc : n.child? r with
+      | none => simp [hc] at h
+      | some c0 =>
+        simp only [hc] at h
+        cases hn : isPlainNull c0 with
+        | true => simp only [hn, if_true] at h; cases h; simp
+        | false =>
+          simp only [hn, Bool.false_eq_true, if_false] at h
+          cases hcr : createPathN leaf c0 rest with
+          | error e => simp [hcr] at h
+          | ok cr => simp only [hcr] at h; cases h; simp
+
 end Ypv.MergeAt
